@@ -125,6 +125,7 @@ class AirPlayStream(Stream):  # pylint: disable=too-few-public-methods
                 url = server.file_address
 
             takeover_release = self.core.takeover(RemoteControl)
+            stream_protocol: Optional[StreamProtocol] = None
             try:
                 # Set up a new connection and wrap it with an AirPlay stream of
                 # correct protocol version
@@ -142,6 +143,10 @@ class AirPlayStream(Stream):  # pylint: disable=too-few-public-methods
             finally:
                 takeover_release()
                 self._play_task = None
+                if stream_protocol:
+                    # Frees what the protocol set up for playback (AirPlay 2: event
+                    # channel and feedback task)
+                    stream_protocol.teardown()
                 if self._connection:
                     self._connection.close()
                     self._connection = None
